@@ -83,6 +83,15 @@ def gen(tier, rng):
     for n in range(maxlen + 1):
         for t in itertools.product(ALPHA, repeat=n):
             cases.append(f"parse\t{hexs(b''.join(t))}\t-\t-")
+    # the accessors of a parsed reply (is_positive, has_code, the code as a number, first_word, first_line)
+    for c in list(range(200, 560, 7)) + [211, 220, 221, 250, 251, 252, 334, 354, 421, 450, 451, 452, 500, 550, 551, 552, 553, 554]:
+        for text in (b"ok", b" two  words here", b"", b"\tTab first", b"single", b"8BITMIME", b"   ", b"a  b"):
+            one = b"%03d %s\r\n" % (c, text)
+            two = b"%03d-%s\r\n%03d last\r\n" % (c, text, c)
+            cases.append("racc\t" + hexs(one))
+            cases.append("racc\t" + hexs(two))
+    cases.append("racc\t" + hexs(b"250\r\n"))
+    cases.append("racc\t" + hexs(b"25 x\r\n"))
     for c in range(1000):
         s = b"%03d x\r\n" % c
         cases.append(f"parse\t{hexs(s)}\t-\t-")
@@ -178,11 +187,13 @@ def nontrivial(case):
         return s.count(b"\r\n") > 1 or any(x in s[4:-2] for x in (b"\r", b"\n", b"-"))
     if f[0] == "rr":
         return f[3] != "-"
+    if f[0] == "racc":
+        return True
     return len(unhexlist(f[1])) > 1
 
 
 def shrinkable(case):
-    return {"parse": [1], "rr": [2], "sinfo": [1]}[case.split("\t")[0]]
+    return {"parse": [1], "rr": [2], "sinfo": [1], "racc": []}[case.split("\t")[0]]
 
 
 def distribution(cases):
@@ -196,6 +207,8 @@ def distribution(cases):
                 d["parse_exhaustive"] += 1
             else:
                 d["parse_other"] += 1
+        elif f[0] == "racc":
+            d["accessors"] = d.get("accessors", 0) + 1
         elif f[0] == "rr":
             d["rr_sync" if f[1] == "s" else "rr_async"] += 1
             if f[3].count(",") > 5:
